@@ -76,6 +76,8 @@ fn main() {
         "C10" => mon::c10::run(&p),
         "C11" => mon::c11::run(&p),
         "C12" => mon::c12::run(&p),
+        "C13" => mon::c13::run(&p, mon::c13::Which::C13),
+        "C02" => mon::c13::run(&p, mon::c13::Which::C02),
         "C15" => mon::c15::run(&p),
         _ => {
             eprintln!("unknown property {}", prop);
